@@ -23,7 +23,7 @@ PROP = "C09"
 RULE = ("get_multiplier_sequence: every subset of {1..10} of size <=4 (quick) / every subset of {1..12} (thorough) plus seeded random subsets of 1..24 (shuffled, with repeats) "
         "x bases in {None, 1-element, 2-element sets over {1,2,3,4,6}, and {2,9},{4,9},{2,3,5},{4,6,9},{6,10,15},{8,5}}; preferred_sequence: start 1..12 x stop 0..250 x both styles; "
         "zoomify_cooler: a fixed-bin base x subsets of {1,2,3,4,6,8,12}*base as targets in shuffled order (all 127 in the thorough tier, 40 random + corpus in the quick tier), "
-        "two-base runs incl. D3/D17 shapes (a base that is a multiple of another base, with its own data and a `weight` bin column), non-derivable targets (refusal), a variable-bin base (resolution 1), chunksize in {1,7,1000}, nproc=2 on two; "
+        "`resolutions` passed as tuple / ndarray int64+int32 / set / range / map / generator / pandas Index; two-base runs incl. D3/D17 shapes (a base that is a multiple of another base, with its own data and a `weight` bin column), non-derivable targets (refusal), a variable-bin base (resolution 1), chunksize in {1,7,1000}, nproc=2 on two; "
         "CLI -r spellings 4DN,10N,10B,10b,10n,N,B,default, comma lists with blanks; non-trivial = at least one derived level whose predecessor is itself derived, or >1 base, or a refusal; distinct by input hash")
 TRUSTED = ["h5py Group.copy makes a faithful copy of a base level (observed: bins incl. extra columns, pixels, indexes, attributes are compared with the source)",
            "coarsen_cooler = model of property C08 (same correspondence run style), multiprocess.Pool.map order preserving"]
@@ -205,6 +205,35 @@ def level_obs(uri):
     return r
 
 
+CONTAINERS = ("tuple", "ndarray-int64", "ndarray-int32", "set", "range", "map", "generator", "pandas-Index")
+
+
+def as_container(kind, res):
+    """the `resolutions` argument in the type named by kind (same members as the list)"""
+    res = [int(r) for r in res]
+    if kind == "list":
+        return list(res)
+    if kind == "tuple":
+        return tuple(res)
+    if kind == "ndarray-int64":
+        return np.array(res, dtype=np.int64)
+    if kind == "ndarray-int32":
+        return np.array(res, dtype=np.int32)
+    if kind == "set":
+        return set(res)
+    if kind == "range":
+        step = res[1] - res[0]
+        assert all(b - a == step for a, b in zip(res[:-1], res[1:])) and step > 0
+        return range(res[0], res[-1] + 1, step)
+    if kind == "map":
+        return map(int, [str(r) for r in res])
+    if kind == "generator":
+        return (r for r in res)
+    if kind == "pandas-Index":
+        return pd.Index(res)
+    raise ValueError(kind)
+
+
 def zoom_run(tmpdir, tag, case):
     """returns (status, result) with result = {"levels": {r: obs}, "listing": [...], "multires": bool}"""
     import cooler
@@ -232,7 +261,8 @@ def zoom_run(tmpdir, tag, case):
                     raise r.exception
                 raise RuntimeError(f"exit {r.exit_code}: {r.exception!r}")
         else:
-            cooler.zoomify_cooler(paths if len(paths) > 1 or case.get("aslist") else paths[0], str(out), list(case["resolutions"]),
+            cooler.zoomify_cooler(paths if len(paths) > 1 or case.get("aslist") else paths[0], str(out),
+                                  as_container(case.get("container", "list"), case["resolutions"]),
                                   chunksize=case["chunksize"], nproc=case.get("nproc", 1))
         listing = sorted(fileops.list_coolers(str(out)))
         levels = {}
@@ -393,6 +423,11 @@ def part_zoom(ctx):
     bd = {"res": 1, "blocks": [[list(x) for x in blk] for blk in dblocks], "pixels": [list(p) for p in G.random_pixels(rng, nd, True, "dense")], "weight": False}
     for res in ([2], [3, 2]):
         cases.append({"fn": "zoomify_cooler", "symmetric": True, "bases": [bd], "resolutions": res, "chunksize": rng.choice([1, 7, 1000]), "note": "D1: variable base with longer last bins"})
+    # the type of the `resolutions` argument at the API boundary: same members, other containers / iterators
+    for ci_, kind in enumerate(CONTAINERS):
+        res = [20, 40, 60, 80] if kind == "range" else [[40, 20, 60], [30, 60, 120], [20, 80, 40, 120]][ci_ % 3]
+        cases.append({"fn": "zoomify_cooler", "symmetric": True, "bases": [baseA], "resolutions": res, "chunksize": rng.choice([1, 7, 1000]),
+                      "note": "container:" + kind, "container": kind})
     # nproc = 2
     for ms in ([2, 4, 8], [2, 3, 6, 12]):
         cases.append({"fn": "zoomify_cooler", "symmetric": True, "bases": [baseA], "resolutions": [10 * m for m in ms], "chunksize": 1, "nproc": 2, "note": "nproc=2"})
